@@ -1465,7 +1465,7 @@ func (s *PrintCtx) appendValue(val any) {
 					hintInternal(err, "MarshalText failed")
 					break
 				}
-				s.pcAppendStringValue(string(data))
+				s.pcQuoteValue(string(data)) // quoted and escaped like every other string-like value
 				break
 			}
 		}
